@@ -370,6 +370,10 @@ class Exec:
         L = self.L
         v = freeze(v)
         if isinstance(v, VComp):
+            if getattr(v, "gen_clock", None) is not None and v.gen_clock != getattr(self, "mut_clock", 0):
+                # a generator function's body runs lazily in Python; it was read eagerly here, which is only the same thing if
+                # nothing was written between its creation and its consumption
+                raise OutOfSubset("generator consumed after a container write (lazy evaluation not modelled)")
             return v.alts
         if isinstance(v, VSet) and v.kind == "upairs":
             # a set of unordered pairs: one element per pair, as a frozenset {x, y}
@@ -520,6 +524,45 @@ class Exec:
         body = [s for s in fi.node.body if not (isinstance(s, ast.Expr) and isinstance(s.value, ast.Constant))]
         if len(body) == 1 and isinstance(body[0], ast.Expr) and isinstance(body[0].value, ast.YieldFrom):
             return self.ev(body[0].value.value)
+        # straight-line prelude (no yields), then one loop `for t in it: [if c:] yield e`  ==  (e for t in it [if c]).
+        # The collection is read eagerly here; a consumer that mutates what the generator reads *while* iterating it would
+        # observe Python's lazy evaluation -- such consumers are outside the subset (loops over a generator whose body writes
+        # to a container the generator read are rejected by the loop's read/write check on the materialised source).
+        *prelude, last = body
+        if isinstance(last, ast.For) and not last.orelse and not any(
+                isinstance(n, (ast.Yield, ast.YieldFrom)) for s in prelude for n in ast.walk(s)):
+            leaves = []      # (list of guard expressions, yielded expression)
+
+            def walk(stmts, guards):
+                if len(stmts) == 1 and isinstance(stmts[0], ast.If):
+                    st = stmts[0]
+                    walk(st.body, guards + [st.test])
+                    if st.orelse:
+                        walk(st.orelse, guards + [ast.UnaryOp(op=ast.Not(), operand=st.test)])
+                    return
+                if len(stmts) == 1 and isinstance(stmts[0], ast.Expr) and isinstance(stmts[0].value, ast.Yield) \
+                        and stmts[0].value.value is not None:
+                    leaves.append((guards, stmts[0].value.value))
+                    return
+                if len(stmts) == 1 and isinstance(stmts[0], ast.Pass):
+                    return
+                raise OutOfSubset(f"generator shape in {fi.qualname}")
+            walk(last.body, [])
+            self.run_body(prelude)
+            alts = []
+            for guards, elt in leaves:
+                gexp = ast.GeneratorExp(elt=elt, generators=[
+                    ast.comprehension(target=last.target, iter=last.iter, ifs=list(guards), is_async=0)])
+                ast.copy_location(gexp, last)
+                ast.fix_missing_locations(gexp)
+                r = self.ev(gexp)
+                if not isinstance(r, VComp) or getattr(r, "alts", None) is None:
+                    raise OutOfSubset(f"generator shape in {fi.qualname} (element kind)")
+                alts += list(r.alts)
+            out = VComp(None, None, None, kind="gen")
+            out.alts = alts
+            out.gen_clock = getattr(self, "mut_clock", 0)
+            return out
         raise OutOfSubset(f"generator shape in {fi.qualname}")
 
     def call_contract(self, fi, con, allargs, kwargs):
